@@ -1,4 +1,5 @@
 """U5 - OsIpcReceiverSet::{add, select}.  Verus."""
+import re
 from vf.gen import Unit, Fn, Clause, Hint, Rule, Loop, AppendArg, GuardedDestructure
 
 F = "src/platform/unix/mod.rs"
@@ -116,6 +117,10 @@ class ValuesFor(Rule):
     def custom(self, src, m, item, in_skip):
         from vf.gen import Edit
         out = []
+        # third spelling: `for entry in self.pollfds.values() {` - the loop variable is the entry itself
+        for x in re.compile(r"for\s+(\w+)\s+in\s+self\.pollfds\.values\(\)\s*\{").finditer(m, item.body_open, item.body_close):
+            out.append(Edit(x.start(), x.end() - 1, "for entry__ in it: vals__.iter() ", "rule", "D32"))
+            out.append(Edit(x.end(), x.end(), "\n            let %s = entry__; /* D32 */" % x.group(1), "rule", "D32"))
         for x in self.regex.finditer(m, item.body_open, item.body_close):
             out.append(Edit(x.start(), x.end() - 1, "for entry__ in it: vals__.iter() ", "rule", "D32"))
             out.append(Edit(x.end(), x.end(), "\n            let fd = entry__.fd; /* D32 */", "rule", "D32"))
